@@ -150,6 +150,14 @@ theorem effective_value_valid_partial (ops : List Op) (cross : Bool) (k : Key) (
     subst hv
     exact hval o (List.mem_of_getElem? ho)
 
+/-- the "did the declaration change?" test of `update_project_options` (`type(old) is type(new)` and
+`choices_are_different`) sees **every** constraint: two declarations it calls unchanged are the same declaration —
+same class, same choices, same minimum and maximum, a bound that is introduced or removed included.  Hence an
+object that is kept validates exactly as the declaration in force does. -/
+theorem unchanged_declaration_is_equal (k k' : Kind) (hc : k.sameClass k' = true)
+    (hd : k.choicesDiffer k' = false) : k = k' := by
+  cases k <;> cases k' <;> simp_all [Kind.sameClass, Kind.choicesDiffer]
+
 /-- `invalid_rejected`: `set_option` on an existing option (no prefix/builtin sanitisation in the way) with a
 value its class rejects raises, and the store is exactly what it was -/
 theorem invalid_rejected (s : Store) (k : Key) (v : Val) (first : Bool) (id : Nat) (o : Obj) (e : Err)
